@@ -31,6 +31,13 @@ KEYWORD_LIST = [
     "recursive",
     "abstract",
     "external",
+    "volatile",
+    "value",
+    "protected",
+    "asynchronous",
+    "intrinsic",
+    "non_overridable",
+    "bind",
 ]
 KEYWORD_ID_DICT = {keyword: ind for (ind, keyword) in enumerate(KEYWORD_LIST)}
 
